@@ -200,15 +200,21 @@ theorem isFixed_iff (d : Dsfmt) :
       isFixed d = true := by
   simp [isFixed, Gen.Types.decDividesOnlyScaled, and_assoc]
 
+/-- char data is decoded with `errors="replace"` (F4): needed for "sample content alone never makes decoding
+    fail" — with the strict decoder (`decCharReplace = false`) this does not hold and everything below that
+    concerns CHAR channels stops checking -/
+theorem charReplace : Gen.Types.decCharReplace = true := by decide
+
 theorem streamDataGet_toVal (d : Dsfmt) (vs : List SVal)
     (hk : ∀ v ∈ vs, ∃ a, kindOk d vs.length a v = true) :
-    streamDataGet d (vs.map toVal) = vs := by
-  unfold streamDataGet
+    streamDataGet d (vs.map toVal) = .ok vs := by
+  unfold streamDataGet streamDataGetP
   rw [List.length_map]
   by_cases hf : isFixed d = true
   · rw [if_pos ((isFixed_iff d).mpr hf), List.map_map]
     have hnum : d.dtype = dtNUM := by
       simp [isFixed] at hf; exact hf.1.1
+    congr 1
     conv => rhs; rw [← List.map_id vs]
     apply List.map_congr_left
     intro v hv
@@ -216,13 +222,14 @@ theorem streamDataGet_toVal (d : Dsfmt) (vs : List SVal)
     cases v <;> simp [kindOk, hf, isText, hnum, dtNUM, dtCHAR] at ha <;> simp [toVal, valToS, ha]
   · rw [if_neg (fun h => hf ((isFixed_iff d).mp h))]
     by_cases ht : d.dtype = dtCHAR ∧ vs.length = 1
-    · rw [if_pos ht, List.map_map]
-      conv => rhs; rw [← List.map_id vs]
-      apply List.map_congr_left
-      intro v hv
-      obtain ⟨a, ha⟩ := hk v hv
-      cases v <;> simp [kindOk, hf, isText, ht.1, ht.2] at ha <;> simp [toVal, valToS]
+    · rw [if_pos ht]
+      match vs, ht.2, hk with
+      | [v], _, hk =>
+        obtain ⟨a, ha⟩ := hk v (by simp)
+        cases v <;> simp [kindOk, hf, isText, ht.1] at ha
+        simp [toVal, charReplace]
     · rw [if_neg ht, List.map_map]
+      congr 1
       conv => rhs; rw [← List.map_id vs]
       apply List.map_congr_left
       intro v hv
@@ -295,6 +302,23 @@ theorem encList_meta {mlen : Nat} {ms : List Int} {m : Bytes}
   obtain ⟨p1, p2, p3⟩ := encList_atoms h1
   rw [map_toVal_int] at p1 p2
   exact ⟨p1, p2, by rw [p3, metaAtoms_size]⟩
+
+/-! ### the generated type table is the hand-written standard table -/
+
+/-- nxslib's type table (`iparse.dsfmt_get`, regenerated from the source on every run) is, row by row, the
+    table of NONE and the 18 standard NxScope types written out by hand in `Spec/StreamWire.lean`: same
+    ids, widths, signedness (struct letter), fraction bits, kinds and scale representation -/
+theorem table_is_standard : Gen.Types.table = standardTable := by decide
+
+/-- hence the model's type lookup is the specification's -/
+theorem dsfmtGet_eq (ty : Nat) (user : List UserType) : dsfmtGet ty user = typeGet ty user := by
+  unfold dsfmtGet typeGet
+  rw [table_is_standard, standardTable, List.find?_map]
+  have hf : ((fun r : Gen.Types.Row => decide (r.ty = ty)) ∘ rowOf) = fun t : StdType => decide (t.ty = ty) := rfl
+  rw [hf]
+  cases stdTypes.find? (fun t => decide (t.ty = ty)) with
+  | none => rfl
+  | some t => rfl
 
 /-! ### the type table -/
 
@@ -370,6 +394,7 @@ theorem decodeOne_wire {layout : List Chan} {user : List UserType} {s : Sample} 
     split at h
     next => cases h
     next d hd =>
+      rw [← dsfmtGet_eq] at hd
       split at h
       next hc =>
         obtain ⟨hid, hvd, hml, hdt, hdim⟩ := hc
@@ -396,9 +421,9 @@ theorem decodeOne_wire {layout : List Chan} {user : List UserType} {s : Sample} 
           unfold unpack
           rw [hbe, hfa, hxu, ok_bind]
           have hb : Gen.Fmt.streamDecBigEndian = false := rfl
-          simp only [msfmt_atoms, hml', hb, hmu, ok_bind, valsToInts_map_int]
           rw [hlen] at hxk
-          rw [streamDataGet_toVal d s.data hxk]
+          rw [streamDataGet_toVal d s.data hxk, ok_bind]
+          simp only [msfmt_atoms, hml', hb, hmu, ok_bind, valsToInts_map_int]
           cases s
           simp_all
         next => cases h
@@ -518,7 +543,7 @@ theorem dataRep_spec {d : Dsfmt} {k : Nat} {as : List Atom} {vs : List SVal}
     | nil => simp [dataRep] at h
     | cons v vs =>
       simp only [dataRep, Bool.and_eq_true] at h
-      obtain ⟨⟨hk, he⟩, hr⟩ := h
+      obtain ⟨⟨⟨hk, _⟩, he⟩, hr⟩ := h
       obtain ⟨r, ih1, ih2, ih3⟩ := ih hr
       obtain ⟨y, hy⟩ := Option.isSome_iff_exists.mp he
       refine ⟨y ++ r, ?_, packAtoms_cons_ok (encAtom_pad_packAtom hy) ih2, ?_⟩
@@ -683,12 +708,13 @@ theorem wireSample_decodedForm {L : List Chan} {user : List UserType} {d : Dsfmt
     (hm : encList encMeta (metaAtoms s.mlen) s.mdata = some m) :
     wireSample L user (decodedForm user s) = some (byteOf s.chan :: (x ++ m)) := by
   obtain ⟨hid, hdim, _, _, _, _⟩ := repFull_parts hr
+  have hd' : typeGet s.dtype user = .ok d := by rw [← dsfmtGet_eq]; exact hd
   have hdf : decodedForm user s =
       { s with dtype := d.dtype, data := padVals (dataAtoms d s.vdim) s.data } := by
-    simp only [decodedForm, hd]
+    simp only [decodedForm, hd']
   rw [hdf]
   unfold wireSample
-  simp only [hL, hd, hx, hm, hid, hdim, and_self, if_true]
+  simp only [hL, hd', hx, hm, hid, hdim, and_self, if_true]
 
 /-- the sample loop of the encoder produces the specification payload of the decoded forms -/
 theorem encodeSamples_wire {user : List UserType} {L : List Chan} {ss : List Sample}
@@ -705,6 +731,7 @@ theorem encodeSamples_wire {user : List UserType} {L : List Chan} {ss : List Sam
         intro ⟨h1, h2⟩; simp [carries, h1, h2] at hc
       have hrs := hrep s (by simp)
       unfold Representable at hrs
+      rw [← dsfmtGet_eq] at hrs
       rcases hrs with hrs | hrs
       · rw [hc] at hrs; cases hrs
       · cases hd : dsfmtGet s.dtype user with
@@ -767,5 +794,37 @@ theorem streamDataEncode_empty (user : List UserType) {ss : List Sample}
   unfold streamDataEncode
   rw [packFlags, ok_bind, encodeSamples_empty user h, ok_bind]
   rfl
+
+/-! ### values that exist as Python floats -/
+
+/-- `n` has at most `p` significant bits: the bits below its `p` most significant ones are zero -/
+theorem sigBits_iff (p n : Nat) :
+    n % 2 ^ (n.log2 + 1 - p) = 0 ↔ ∃ m e : Nat, m < 2 ^ p ∧ n = m * 2 ^ e := by
+  constructor
+  · intro h
+    refine ⟨n / 2 ^ (n.log2 + 1 - p), n.log2 + 1 - p, ?_, ?_⟩
+    · apply Nat.div_lt_of_lt_mul
+      have h1 : n < 2 ^ (n.log2 + 1) := Nat.lt_log2_self
+      have h2 : 2 ^ (n.log2 + 1) ≤ 2 ^ ((n.log2 + 1 - p) + p) :=
+        Nat.pow_le_pow_right (by decide) (by omega)
+      rw [Nat.pow_add (2 : Nat) (n.log2 + 1 - p) p] at h2
+      exact Nat.lt_of_lt_of_le h1 h2
+    · exact (Nat.div_mul_cancel (Nat.dvd_of_mod_eq_zero h)).symm
+  · rintro ⟨m, e, hm, rfl⟩
+    by_cases h0 : m * 2 ^ e = 0
+    · rw [h0]; simp
+    · have hlt : m * 2 ^ e < 2 ^ (p + e) := by
+        rw [Nat.pow_add]
+        exact Nat.mul_lt_mul_of_lt_of_le hm (Nat.le_refl _) (Nat.pow_pos (by decide))
+      have hl := (Nat.log2_lt h0).mpr hlt
+      have hk : (m * 2 ^ e).log2 + 1 - p ≤ e := by omega
+      exact Nat.mod_eq_zero_of_dvd (Nat.dvd_trans (Nat.pow_dvd_pow 2 hk) (Nat.dvd_mul_left _ _))
+
+/-- `floatExact raw` says exactly: raw = ± m · 2^e with m < 2^53 — raw is an IEEE binary64 value -/
+theorem floatExact_iff (raw : Int) :
+    floatExact raw = true ↔ ∃ m e : Nat, m < 2 ^ 53 ∧ raw.natAbs = m * 2 ^ e := by
+  unfold floatExact
+  rw [decide_eq_true_eq]
+  exact sigBits_iff 53 raw.natAbs
 
 end Nxs.Stream
